@@ -337,7 +337,7 @@ pub const VALUES: &[&str] = &[
     "v[0]",
     "\"[ref: 9] \"",
 ];
-pub const TARGETS: &[&str] = &["t", "app::net", "a,b", "x;y", "my target", "[ref: 3] z", "ünï", "a:b"];
+pub const TARGETS: &[&str] = &["t", "app::net", "a,b", "x;y", "my target", "[ref: 3] z", "ünï", "a:b", "C:\\\\", "a\\\\b"];
 pub const BODY_PIECES: &[&str] = &[
     "hello",
     " ",
@@ -588,6 +588,10 @@ pub enum Decoy
     /// used by the fixed known-finding probe, never generated
     NoLiteralKv(String),
     InString(String),         // `let _s = "…info!(\"x\")…";`
+    /// configured name, target given as a constant / path / call instead of a string literal, then a
+    /// literal message. Not canonical: Breadlog may leave it alone, but IF it treats it as a statement
+    /// the reference has to go where it goes for a literal target (checked by `optional_window`).
+    NonLiteralTarget(String),
 }
 
 impl Decoy
@@ -602,7 +606,8 @@ impl Decoy
             | Decoy::Unconfigured(s)
             | Decoy::NoLiteral(s)
             | Decoy::NoLiteralKv(s)
-            | Decoy::InString(s) => s,
+            | Decoy::InString(s)
+            | Decoy::NonLiteralTarget(s) => s,
         }
     }
     pub fn kind(&self) -> &'static str
@@ -616,6 +621,7 @@ impl Decoy
             Decoy::NoLiteral(_) => "no-literal",
             Decoy::NoLiteralKv(_) => "no-literal-kv",
             Decoy::InString(_) => "in-string",
+            Decoy::NonLiteralTarget(_) => "non-literal-target",
         }
     }
 }
@@ -646,6 +652,9 @@ pub fn decoy(cfg: &ConfigSpec) -> BoxedStrategy<Decoy>
             format!("x::{}::{}", m.module, m.name),
             format!("{}::x{}", m.module, m.name),
             format!("{}::{}x", m.module, m.name),
+            format!("для{}", m.name),
+            format!("журнал::{}", m.name),
+            format!("日志::{}::{}", m.module, m.name),
         ]
         {
             let last = cand.rsplit("::").next().unwrap_or("").to_string();
@@ -712,6 +721,8 @@ pub fn decoy(cfg: &ConfigSpec) -> BoxedStrategy<Decoy>
         3 => (select(uncfg), msg.clone()).prop_map(|(n, m)| Decoy::Unconfigured(format!("{}!(\"{}\");", n, m))),
         2 => (call.clone(), select(&["", "x", "target: \"t\"", "FMT, 1", "x.y", "&s", "concat!(a)"][..]))
             .prop_map(|(c, a)| Decoy::NoLiteral(format!("{}!({});", c, a))),
+        2 => (call.clone(), select(&["LOG_TARGET", "crate::logging::TARGET", "pick_target(verbose, \"fallback\")", "module_path!()", "tf(n, \"[ref: 41] in the target\")", "T"][..]), select(&["Server started", "x {}", "", "[ref: 9] has one"][..]))
+            .prop_map(|(c, t, m)| Decoy::NonLiteralTarget(format!("{}!(target: {}, \"{}\");", c, t, m))),
         2 => (call, select(&["say ", "", "a \\\\ \\\" ", "x\\\" "][..]), select(&["hi", "[ref: 2] z", ""][..]))
             .prop_map(|(c, pre, m)| Decoy::InString(format!("let _s = \"{}{}!(\\\"{}\\\")\";", pre, c, m))),
     ]
@@ -767,6 +778,8 @@ pub const FILLERS: &[&str] = &[
     "    _ => (),",
     "/* block */",
     "let c = 'c';",
+    "// \u{130}\u{130}\u{130}\u{130}\u{130}\u{130}\u{130}\u{130}\u{130}\u{130}\u{130}\u{130} \u{130}STANBUL",
+    "let _city = \"\u{130}\u{130}\u{130}\u{130}\u{130}\u{130}\u{130}\u{130}\u{130}\u{130}\u{130}\u{23a}\u{23e}\";",
     "let tab = \"\\t\";\tlet u = 1;",
     "let e = \"é\"; // naïve",
     "#[derive(Debug)]",
@@ -837,6 +850,20 @@ fn pad_item() -> BoxedStrategy<Item>
     .boxed()
 }
 
+/// `name!(target: <not a string literal>, "<msg>");` for a configured name (see `Decoy::NonLiteralTarget`).
+pub fn non_literal_target_item(cfg: &ConfigSpec) -> BoxedStrategy<Decoy>
+{
+    let mut callable: Vec<String> = cfg.macros.iter().map(|m| m.name.clone()).collect();
+    callable.extend(cfg.macros.iter().map(|m| format!("{}::{}", m.module, m.name)));
+    (
+        select(callable),
+        select(&["LOG_TARGET", "crate::logging::TARGET", "pick_target(verbose, \"fallback\")", "module_path!()", "tf(n, \"[ref: 41] in the target\")", "T"][..]),
+        select(&["Server started", "x {}", "", "[ref: 9] has one"][..]),
+    )
+        .prop_map(|(c, t, m)| Decoy::NonLiteralTarget(format!("{}!(target: {}, \"{}\");", c, t, m)))
+        .boxed()
+}
+
 pub fn file_spec(cfg: &ConfigSpec, p: &StmtParams, max_items: usize, decoys: bool) -> BoxedStrategy<FileSpec>
 {
     let mut sp = p.clone();
@@ -862,12 +889,13 @@ pub fn file_spec(cfg: &ConfigSpec, p: &StmtParams, max_items: usize, decoys: boo
     else
     {
         prop_oneof![
-            6 => st.clone().prop_map(Item::Stmt),
-            1 => st.prop_map(Item::StmtSameLine),
-            2 => select(FILLERS).prop_map(|s| Item::Filler(s.to_string())),
-            1 => real,
-            1 => (1usize..3).prop_map(Item::Blank),
-            1 => pad_item(),
+            12 => st.clone().prop_map(Item::Stmt),
+            2 => st.prop_map(Item::StmtSameLine),
+            4 => select(FILLERS).prop_map(|s| Item::Filler(s.to_string())),
+            2 => real,
+            2 => (1usize..3).prop_map(Item::Blank),
+            2 => pad_item(),
+            1 => non_literal_target_item(cfg).prop_map(Item::Decoy),
         ]
         .boxed()
     };
